@@ -38,6 +38,7 @@ pub struct CallRec {
     pub inner_ok: bool,
     pub returned_ok: bool,
     pub lease_out: String,
+    pub error: String,
 }
 
 #[derive(Default)]
@@ -62,12 +63,21 @@ pub struct MetaGate {
     pub shared: Arc<Shared>,
     pub client: usize,
     pub dead: AtomicBool,
+    /// false = raw mode: operations are only recorded; the metadata client's own
+    /// object-store requests are what the controller schedules
+    pub gated: bool,
+    /// raw mode: the client the renewal task uses (its requests carry another client id)
+    pub renew_inner: Option<Arc<dyn MetadataClient>>,
 }
 
 impl MetaGate {
     pub fn new(inner: Arc<dyn MetadataClient>, hub: Arc<Hub>, client: usize, shared: Arc<Shared>) -> MetaGate {
         let store = hub.client(client);
-        MetaGate { inner, hub, store, shared, client, dead: AtomicBool::new(false) }
+        MetaGate { inner, hub, store, shared, client, dead: AtomicBool::new(false), gated: true, renew_inner: None }
+    }
+    pub fn raw(inner: Arc<dyn MetadataClient>, renew_inner: Arc<dyn MetadataClient>, hub: Arc<Hub>, client: usize, shared: Arc<Shared>) -> MetaGate {
+        let store = hub.client(client);
+        MetaGate { inner, hub, store, shared, client, dead: AtomicBool::new(false), gated: false, renew_inner: Some(renew_inner) }
     }
 
     fn begin(&self, rec: CallRec) -> usize {
@@ -109,6 +119,15 @@ impl MetaGate {
     {
         let op = rec.op;
         let idx = self.begin(rec);
+        if !self.gated {
+            let r = f().await;
+            let l = r.as_ref().map(|v| lease_of(v)).unwrap_or_default();
+            if let Err(e) = &r {
+                self.shared.calls.lock().unwrap()[idx].error = e.to_string();
+            }
+            self.finish(idx, true, r.is_ok(), r.is_ok(), l);
+            return r;
+        }
         match self.ask(&self.store, op).await {
             Verdict::Before => {
                 self.finish(idx, false, false, false, String::new());
@@ -220,6 +239,14 @@ impl MetadataClient for MetaGate {
         // a renewal task of a crashed incarnation dies with its process
         if self.dead.load(Ordering::SeqCst) {
             return Err(Error::Internal("process gone".into()));
+        }
+        if let Some(ri) = &self.renew_inner {
+            let mut r = rec(16 + self.client, "renew");
+            r.lease = lease_id.to_string();
+            let idx = self.begin(r);
+            let res = ri.renew_lease(lease_id).await;
+            self.finish(idx, true, res.is_ok(), res.is_ok(), String::new());
+            return res;
         }
         let pseudo = self.shared.next_pseudo.fetch_add(1, Ordering::SeqCst);
         self.shared.renew_waiting.lock().unwrap().push((pseudo, self.client, lease_id.to_string()));
